@@ -671,4 +671,461 @@ theorem getSubmodel_ne_crash (r : Reg) (m : MId) (path : Path) : getSubmodel r m
 
 end Reg
 
+
+/-! ### the invariant is preserved -/
+
+theorem nodup_snoc {α} {l : List α} {a : α} (h : l.Nodup) (ha : a ∉ l) : (l ++ [a]).Nodup := by
+  rw [List.nodup_append]
+  refine ⟨h, by simp, ?_⟩
+  intro x hx y hy
+  simp only [List.mem_singleton] at hy
+  subst hy
+  intro heq
+  subst heq
+  exact ha hx
+
+theorem MState.wf_default : ({} : MState).wf := by
+  constructor <;> simp
+
+theorem MState.wf_addParam {st : MState} (h : st.wf) {n : Name} {p : PId} (hn : n ∉ st.nameSet) (hp : p ∉ st.paramSet) :
+    ({ st with nameSet := setEmplace st.nameSet n, paramSet := setEmplace st.paramSet p,
+               paramKv := kvEmplace st.paramKv n p } : MState).wf := by
+  have hk : n ∉ st.paramKv.map (·.1) := fun hc => hn ((h.names_iff n).2 (Or.inl hc))
+  have hk' : n ∉ st.subKv.map (·.1) := fun hc => hn ((h.names_iff n).2 (Or.inr hc))
+  have hv : p ∉ st.paramKv.map (·.2) := fun hc => hp ((h.pset_iff p).2 hc)
+  rw [setEmplace_of_not_mem hn, setEmplace_of_not_mem hp, kvEmplace_of_none (kvFind_eq_none_iff.2 hk)]
+  obtain ⟨h1, h2, h3, h4, h5, h6, h7, h8, h9, h10, h11⟩ := h
+  constructor
+  · simpa using nodup_snoc h1 hk
+  · exact h2
+  · simpa using nodup_snoc h3 hv
+  · exact h4
+  · exact nodup_snoc h5 hn
+  · exact nodup_snoc h6 hp
+  · exact h7
+  · intro x; simp only [List.mem_append, List.mem_singleton, List.map_append, List.map_cons, List.map_nil, h8 x]
+    grind
+  · intro x hx
+    simp only [List.map_append, List.map_cons, List.map_nil, List.mem_append, List.mem_singleton] at hx
+    rcases hx with hx | hx
+    · exact h9 x hx
+    · subst hx; exact hk'
+  · intro x; simp only [List.mem_append, List.mem_singleton, List.map_append, List.map_cons, List.map_nil, h10 x]
+  · exact h11
+
+theorem MState.wf_addSub {st : MState} (h : st.wf) {n : Name} {c : MId} (hn : n ∉ st.nameSet) (hc : c ∉ st.subSet) :
+    ({ st with nameSet := setEmplace st.nameSet n, subSet := setEmplace st.subSet c,
+               subKv := kvEmplace st.subKv n c } : MState).wf := by
+  have hk : n ∉ st.subKv.map (·.1) := fun hc => hn ((h.names_iff n).2 (Or.inr hc))
+  have hk' : n ∉ st.paramKv.map (·.1) := fun hc => hn ((h.names_iff n).2 (Or.inl hc))
+  have hv : c ∉ st.subKv.map (·.2) := fun hx => hc ((h.sset_iff c).2 hx)
+  rw [setEmplace_of_not_mem hn, setEmplace_of_not_mem hc, kvEmplace_of_none (kvFind_eq_none_iff.2 hk)]
+  obtain ⟨h1, h2, h3, h4, h5, h6, h7, h8, h9, h10, h11⟩ := h
+  constructor
+  · exact h1
+  · simpa using nodup_snoc h2 hk
+  · exact h3
+  · simpa using nodup_snoc h4 hv
+  · exact nodup_snoc h5 hn
+  · exact h6
+  · exact nodup_snoc h7 hc
+  · intro x; simp only [List.mem_append, List.mem_singleton, List.map_append, List.map_cons, List.map_nil, h8 x]
+    grind
+  · intro x hx
+    simp only [List.map_append, List.map_cons, List.map_nil, List.mem_append, List.mem_singleton]
+    intro hx'
+    rcases hx' with hx' | hx'
+    · exact h9 x hx hx'
+    · subst hx'; exact hk' hx
+  · exact h10
+  · intro x; simp only [List.mem_append, List.mem_singleton, List.map_append, List.map_cons, List.map_nil, h11 x]
+
+
+namespace Reg
+
+theorem child_lt_size {r : Reg} {m c : MId} (h : r.child m c) : m < r.size := by
+  apply Nat.lt_of_not_le
+  intro hle
+  simp [child, get_of_size_le hle] at h
+
+theorem inv_empty : Reg.empty.inv := by
+  refine ⟨fun m => ?_, fun m c h => ?_, ⟨fun _ => 0, fun m c h => ?_⟩⟩
+  · rw [get_of_size_le (by simp [Reg.size, Reg.empty])]; exact MState.wf_default
+  · exact absurd (child_lt_size h) (by simp [Reg.size, Reg.empty])
+  · exact absurd (child_lt_size h) (by simp [Reg.size, Reg.empty])
+
+theorem inv_newModel {r : Reg} (h : r.inv) : r.newModel.inv := by
+  refine ⟨fun m => ?_, fun m c hc => ?_, ?_⟩
+  · rw [get_newModel]; exact h.wf m
+  · simp only [child, get_newModel] at hc
+    have := h.closed m c hc
+    simp only [Reg.size, Reg.newModel, List.length_append, List.length_singleton] at this ⊢
+    exact Nat.lt_succ_of_lt this
+  · obtain ⟨rk, hrk⟩ := h.acyclic
+    exact ⟨rk, fun m c hc => hrk m c (by simpa [child, get_newModel] using hc)⟩
+
+theorem inv_newParam {r : Reg} (h : r.inv) (v : Bool) : (r.newParam v).inv := ⟨h.wf, h.closed, h.acyclic⟩
+
+/-- what a parameter add does, case by case -/
+theorem addParam_cases (r : Reg) (m : MId) (n : Name) (p : PId) :
+    (kvFind (r.get m).paramKv n = some p ∧ r.addParam m n p = .ok r) ∨
+    (kvFind (r.get m).paramKv n ≠ some p ∧ (n ∈ (r.get m).nameSet ∨ p ∈ (r.get m).paramSet) ∧ r.addParam m n p = .error r) ∨
+    (kvFind (r.get m).paramKv n ≠ some p ∧ n ∉ (r.get m).nameSet ∧ p ∉ (r.get m).paramSet ∧
+      r.addParam m n p = .ok (r.put m { r.get m with
+        nameSet := setEmplace (r.get m).nameSet n, paramSet := setEmplace (r.get m).paramSet p,
+        paramKv := kvEmplace (r.get m).paramKv n p })) := by
+  unfold addParam
+  by_cases h1 : kvFind (r.get m).paramKv n = some p
+  · simp [h1]
+  · by_cases h2 : n ∈ (r.get m).nameSet
+    · simp [h1, h2]
+    · by_cases h3 : p ∈ (r.get m).paramSet
+      · simp [h1, h2, h3]
+      · simp [h1, h2, h3]
+
+/-- what a submodel add does, case by case -/
+theorem addSub_cases (r : Reg) (m : MId) (n : Name) (c : MId) :
+    (kvFind (r.get m).subKv n = some c ∧ r.addSub m n c = .ok r) ∨
+    (kvFind (r.get m).subKv n ≠ some c ∧ c ≠ m ∧ hasSub r m r.size c = .crash ∧ r.addSub m n c = .crash) ∨
+    (kvFind (r.get m).subKv n ≠ some c ∧
+      (c = m ∨ hasSub r m r.size c = .error ∨ hasSub r m r.size c = .ok true ∨
+        (hasSub r m r.size c = .ok false ∧ (n ∈ (r.get m).nameSet ∨ c ∈ (r.get m).subSet))) ∧
+      r.addSub m n c = .error r) ∨
+    (kvFind (r.get m).subKv n ≠ some c ∧ c ≠ m ∧ hasSub r m r.size c = .ok false ∧
+      n ∉ (r.get m).nameSet ∧ c ∉ (r.get m).subSet ∧
+      r.addSub m n c = .ok (r.put m { r.get m with
+        nameSet := setEmplace (r.get m).nameSet n, subSet := setEmplace (r.get m).subSet c,
+        subKv := kvEmplace (r.get m).subKv n c })) := by
+  unfold addSub
+  by_cases h1 : kvFind (r.get m).subKv n = some c
+  · simp [h1]
+  · by_cases h2 : c = m
+    · subst h2; simp [h1]
+    · rcases h3 : hasSub r m r.size c with b | _ | _
+      · cases b
+        · by_cases h4 : n ∈ (r.get m).nameSet
+          · simp [h1, h2, h4]
+          · by_cases h5 : c ∈ (r.get m).subSet
+            · simp [h1, h2, h4, h5]
+            · simp [h1, h2, h4, h5]
+        · simp [h1, h2]
+      · simp [h1, h2]
+      · simp [h1, h2]
+
+theorem inv_put_addParam {r : Reg} (hi : r.inv) {m : MId} (hm : m < r.size) {n : Name} {p : PId}
+    (hn : n ∉ (r.get m).nameSet) (hp : p ∉ (r.get m).paramSet) :
+    (r.put m { r.get m with
+        nameSet := setEmplace (r.get m).nameSet n, paramSet := setEmplace (r.get m).paramSet p,
+        paramKv := kvEmplace (r.get m).paramKv n p }).inv := by
+  have hchild : ∀ x y, child (r.put m { r.get m with
+        nameSet := setEmplace (r.get m).nameSet n, paramSet := setEmplace (r.get m).paramSet p,
+        paramKv := kvEmplace (r.get m).paramKv n p }) x y ↔ r.child x y := by
+    intro x y
+    by_cases hx : x = m
+    · subst hx; simp [child, get_put_self hm]
+    · simp [child, get_put_ne hx]
+  refine ⟨fun x => ?_, fun x y h => ?_, ?_⟩
+  · by_cases hx : x = m
+    · subst hx; rw [get_put_self hm]; exact MState.wf_addParam (hi.wf x) hn hp
+    · rw [get_put_ne hx]; exact hi.wf x
+  · rw [size_put]; exact hi.closed x y ((hchild x y).1 h)
+  · obtain ⟨rk, hrk⟩ := hi.acyclic
+    exact ⟨rk, fun x y h => hrk x y ((hchild x y).1 h)⟩
+
+theorem inv_put_addSub {r : Reg} (hi : r.inv) {m : MId} (hm : m < r.size) {n : Name} {c : MId} (hc : c < r.size)
+    (hne : c ≠ m) (hnr : ¬ r.Reach c m)
+    (hn : n ∉ (r.get m).nameSet) (hcs : c ∉ (r.get m).subSet) :
+    (r.put m { r.get m with
+        nameSet := setEmplace (r.get m).nameSet n, subSet := setEmplace (r.get m).subSet c,
+        subKv := kvEmplace (r.get m).subKv n c }).inv := by
+  have hchild : ∀ x y, child (r.put m { r.get m with
+        nameSet := setEmplace (r.get m).nameSet n, subSet := setEmplace (r.get m).subSet c,
+        subKv := kvEmplace (r.get m).subKv n c }) x y ↔ (r.child x y ∨ (x = m ∧ y = c)) := by
+    intro x y
+    by_cases hx : x = m
+    · subst hx; simp [child, get_put_self hm, setEmplace_of_not_mem hcs]
+    · simp [child, get_put_ne hx, hx]
+  refine ⟨fun x => ?_, fun x y h => ?_, ?_⟩
+  · by_cases hx : x = m
+    · subst hx; rw [get_put_self hm]; exact MState.wf_addSub (hi.wf x) hn hcs
+    · rw [get_put_ne hx]; exact hi.wf x
+  · rw [size_put]
+    rcases (hchild x y).1 h with h | ⟨_, h⟩
+    · exact hi.closed x y h
+    · subst h; exact hc
+  · obtain ⟨rk, hrk⟩ := hi.acyclic
+    -- lift `m` and everything above it over `c`
+    refine ⟨fun x => @ite _ (x = m ∨ r.Reach x m) (Classical.propDecidable _) (rk x + rk c + 1) (rk x), ?_⟩
+    intro x y h
+    have hA : ∀ z, (z = m ∨ r.Reach z m) → ∀ w, r.child w z → (w = m ∨ r.Reach w m) := by
+      intro z hz w hw
+      rcases hz with hz | hz
+      · subst hz; exact Or.inr (.single hw)
+      · exact Or.inr (.step hw hz)
+    rcases (hchild x y).1 h with h | ⟨hx, hy⟩
+    · have hlt := hrk x y h
+      by_cases hyA : y = m ∨ r.Reach y m
+      · have hxA := hA y hyA x h
+        simp only [hyA, hxA, if_true]
+        omega
+      · by_cases hxA : x = m ∨ r.Reach x m
+        · simp only [hyA, hxA, if_true, if_false]; omega
+        · simp only [hyA, hxA, if_false]; exact hlt
+    · subst hx; subst hy
+      have hyA : ¬ (y = x ∨ r.Reach y x) := by
+        intro h'; rcases h' with h' | h'
+        · exact hne h'
+        · exact hnr h'
+      simp only [hyA, if_false, true_or, if_true]
+      omega
+
+theorem inv_addParam {r r' : Reg} (hi : r.inv) {m : MId} (hm : m < r.size) {n : Name} {p : PId}
+    (h : r.addParam m n p = .ok r') : r'.inv := by
+  rcases addParam_cases r m n p with ⟨_, h'⟩ | ⟨_, _, h'⟩ | ⟨_, hn, hp, h'⟩ <;> rw [h'] at h <;> cases h
+  · exact hi
+  · exact inv_put_addParam hi hm hn hp
+
+theorem inv_addSub {r r' : Reg} (hi : r.inv) {m : MId} (hm : m < r.size) {n : Name} {c : MId} (hc : c < r.size)
+    (h : r.addSub m n c = .ok r') : r'.inv := by
+  rcases addSub_cases r m n c with ⟨_, h'⟩ | ⟨_, _, _, h'⟩ | ⟨_, _, h'⟩ | ⟨_, hne, hs, hn, hcs, h'⟩ <;> rw [h'] at h <;> cases h
+  · exact hi
+  · exact inv_put_addSub hi hm hc hne (hasSub_false hs) hn hcs
+
+end Reg
+
+namespace Reg
+
+theorem addParam_error {r r' : Reg} {m : MId} {n : Name} {p : PId} (h : r.addParam m n p = .error r') : r' = r := by
+  rcases addParam_cases r m n p with ⟨_, h'⟩ | ⟨_, _, h'⟩ | ⟨_, _, _, h'⟩ <;> rw [h'] at h <;> cases h
+  rfl
+
+theorem addParam_ne_crash (r : Reg) (m : MId) (n : Name) (p : PId) : r.addParam m n p ≠ .crash := by
+  rcases addParam_cases r m n p with ⟨_, h'⟩ | ⟨_, _, h'⟩ | ⟨_, _, _, h'⟩ <;> rw [h'] <;> simp
+
+theorem addSub_error {r r' : Reg} {m : MId} {n : Name} {c : MId} (h : r.addSub m n c = .error r') : r' = r := by
+  rcases addSub_cases r m n c with ⟨_, h'⟩ | ⟨_, _, _, h'⟩ | ⟨_, _, h'⟩ | ⟨_, _, _, _, _, h'⟩ <;> rw [h'] at h <;> cases h
+  rfl
+
+theorem addSub_ne_crash {r : Reg} (hi : r.inv) {m : MId} (n : Name) {c : MId} (hc : c < r.size) :
+    r.addSub m n c ≠ .crash := by
+  obtain ⟨b, hb⟩ := hasSub_total hi m hc
+  rcases addSub_cases r m n c with ⟨_, h'⟩ | ⟨_, _, hcr, _⟩ | ⟨_, _, h'⟩ | ⟨_, _, _, _, _, h'⟩
+  · rw [h']; simp
+  · rw [hb] at hcr; cases hcr
+  · rw [h']; simp
+  · rw [h']; simp
+
+theorem inv_step {r : Reg} (hi : r.inv) (op : Op) : (r.step op).inv := by
+  cases op with
+  | newModel => exact inv_newModel hi
+  | newParam v => exact inv_newParam hi v
+  | addParam m n p =>
+    simp only [step]
+    split
+    · rename_i hm
+      rcases h : r.addParam m n p with r' | r' | _
+      · exact inv_addParam hi hm h
+      · rw [addParam_error h]; exact hi
+      · exact hi
+    · exact hi
+  | addSub m n c =>
+    simp only [step]
+    split
+    · rename_i hm
+      rcases h : r.addSub m n c with r' | r' | _
+      · exact inv_addSub hi hm.1 hm.2 h
+      · rw [addSub_error h]; exact hi
+      · exact hi
+    · exact hi
+
+theorem inv_foldl {r : Reg} (hi : r.inv) (ops : List Op) : (ops.foldl Reg.step r).inv := by
+  induction ops generalizing r with
+  | nil => exact hi
+  | cons op rest ih => exact ih (inv_step hi op)
+
+end Reg
+
+/-! ### Optimizer::add -/
+namespace Opt
+
+theorem addParam_error {valid : PId → Bool} {o o' : Opt} {p : PId} (h : addParam valid o p = .error o') : o' = o := by
+  unfold addParam at h
+  split at h
+  · cases h
+  · split at h
+    · cases h; rfl
+    · cases h
+
+theorem addParam_ne_crash (valid : PId → Bool) (o : Opt) (p : PId) : addParam valid o p ≠ .crash := by
+  unfold addParam; split
+  · simp
+  · split <;> simp
+
+theorem addParam_ok {valid : PId → Bool} {o o' : Opt} {p : PId} (hn : o.params.Nodup) (h : addParam valid o p = .ok o') :
+    o'.params.Nodup ∧ o'.needsStats = o.needsStats ∧ ∀ q, q ∈ o'.params ↔ q ∈ o.params ∨ q = p := by
+  unfold addParam at h
+  split at h
+  · rename_i hp
+    cases h
+    refine ⟨hn, rfl, fun q => ⟨Or.inl, fun hq => ?_⟩⟩
+    rcases hq with hq | hq
+    · exact hq
+    · subst hq; exact hp
+  · rename_i hp
+    split at h
+    · cases h
+    · cases h
+      exact ⟨nodup_snoc hn hp, rfl, fun q => by simp⟩
+
+theorem addList_ok {valid : PId → Bool} {o o' : Opt} {ps : List PId} (hn : o.params.Nodup) (h : addList valid o ps = .ok o') :
+    o'.params.Nodup ∧ o'.needsStats = o.needsStats ∧ ∀ q, q ∈ o'.params ↔ q ∈ o.params ∨ q ∈ ps := by
+  induction ps generalizing o with
+  | nil => simp only [addList, Out.ok.injEq] at h; subst h; exact ⟨hn, rfl, by simp⟩
+  | cons p rest ih =>
+    simp only [addList] at h
+    split at h
+    · rename_i o1 h1
+      obtain ⟨a1, a2, a3⟩ := addParam_ok hn h1
+      obtain ⟨b1, b2, b3⟩ := ih a1 h
+      refine ⟨b1, b2.trans a2, fun q => ?_⟩
+      rw [b3 q, a3 q]
+      simp only [List.mem_cons]
+      constructor
+      · rintro ((h | h) | h)
+        · exact Or.inl h
+        · exact Or.inr (Or.inl h)
+        · exact Or.inr (Or.inr h)
+      · rintro (h | h | h)
+        · exact Or.inl (Or.inl h)
+        · exact Or.inl (Or.inr h)
+        · exact Or.inr h
+    · cases h
+    · cases h
+
+theorem addList_ne_crash (valid : PId → Bool) (o : Opt) (ps : List PId) : addList valid o ps ≠ .crash := by
+  induction ps generalizing o with
+  | nil => simp [addList]
+  | cons p rest ih =>
+    simp only [addList]
+    split
+    · exact ih _
+    · simp
+    · rename_i h; exact absurd h (addParam_ne_crash _ _ _)
+
+/-- the loop fails exactly when it meets a parameter it cannot configure -/
+theorem addList_error {valid : PId → Bool} {o o' : Opt} {ps : List PId} (h : addList valid o ps = .error o') :
+    o.needsStats = true ∧ ∃ p ∈ ps, valid p = false := by
+  induction ps generalizing o with
+  | nil => simp [addList] at h
+  | cons p rest ih =>
+    simp only [addList] at h
+    split at h
+    · rename_i o1 h1
+      have : o1.needsStats = o.needsStats := by
+        unfold addParam at h1
+        split at h1
+        · cases h1; rfl
+        · split at h1
+          · cases h1
+          · cases h1; rfl
+      obtain ⟨a, q, hq, hv⟩ := ih h
+      exact ⟨this ▸ a, q, by simp [hq], hv⟩
+    · rename_i o1 h1
+      unfold addParam at h1
+      split at h1
+      · cases h1
+      · split at h1
+        · rename_i hc
+          simp only [Bool.and_eq_true, Bool.not_eq_eq_eq_not, Bool.not_true] at hc
+          exact ⟨hc.1, p, by simp, hc.2⟩
+        · cases h1
+    · cases h
+
+theorem addList_all_valid {valid : PId → Bool} {o : Opt} {ps : List PId} (hv : o.needsStats = false ∨ ∀ p ∈ ps, valid p = true) :
+    ∃ o', addList valid o ps = .ok o' := by
+  rcases h : addList valid o ps with o' | o' | _
+  · exact ⟨o', rfl⟩
+  · obtain ⟨a, p, hp, hp'⟩ := addList_error h
+    rcases hv with hv | hv
+    · rw [hv] at a; cases a
+    · rw [hv p hp] at hp'; cases hp'
+  · exact absurd h (addList_ne_crash _ _ _)
+
+end Opt
+
+
+theorem mem_keys_iff_kvFind {κ ν : Type} [DecidableEq κ] {l : List (κ × ν)} {k : κ} :
+    k ∈ l.map (·.1) ↔ ∃ v, kvFind l k = some v := by
+  constructor
+  · intro h
+    rcases hf : kvFind l k with _ | v
+    · exact absurd h (kvFind_eq_none_iff.1 hf)
+    · exact ⟨v, rfl⟩
+  · rintro ⟨v, hv⟩
+    exact List.mem_map.2 ⟨(k, v), kvFind_some_mem hv, rfl⟩
+
+theorem mem_vals_iff_kvFind {κ ν : Type} [DecidableEq κ] {l : List (κ × ν)} (hn : (l.map (·.1)).Nodup) {v : ν} :
+    v ∈ l.map (·.2) ↔ ∃ k, kvFind l k = some v := by
+  constructor
+  · intro h
+    obtain ⟨⟨k, v'⟩, he, hv⟩ := List.mem_map.1 h
+    simp only at hv; subst hv
+    exact ⟨k, kvFind_of_mem hn he⟩
+  · rintro ⟨k, hk⟩
+    exact List.mem_map.2 ⟨(k, v), kvFind_some_mem hk, rfl⟩
+
+theorem resolvesP_single {r : Reg} {m : MId} {n : Name} {p : PId} :
+    ResolvesP r m [n] p ↔ kvFind (r.get m).paramKv n = some p := by
+  constructor
+  · intro h
+    cases h with
+    | here h => exact h
+    | sub _ h => cases h
+  · exact .here
+
+theorem resolvesM_single {r : Reg} {m : MId} {n : Name} {c : MId} :
+    ResolvesM r m [n] c ↔ kvFind (r.get m).subKv n = some c := by
+  constructor
+  · intro h
+    cases h with
+    | here h => exact h
+    | sub _ h => cases h
+  · exact .here
+
+theorem nameUsed_iff {r : Reg} (hwf : (r.get m).wf) {n : Name} : NameUsed r m n ↔ n ∈ (r.get m).nameSet := by
+  simp only [NameUsed, resolvesP_single, resolvesM_single, hwf.names_iff n, mem_keys_iff_kvFind]
+
+theorem paramRegistered_iff {r : Reg} (hwf : (r.get m).wf) {p : PId} : (∃ n', ResolvesP r m [n'] p) ↔ p ∈ (r.get m).paramSet := by
+  simp only [resolvesP_single, hwf.pset_iff p, mem_vals_iff_kvFind hwf.pkeys_nodup]
+
+theorem subRegistered_iff {r : Reg} (hwf : (r.get m).wf) {c : MId} : (∃ n', ResolvesM r m [n'] c) ↔ c ∈ (r.get m).subSet := by
+  simp only [resolvesM_single, hwf.sset_iff c, mem_vals_iff_kvFind hwf.skeys_nodup]
+
+namespace Reg
+
+theorem addParam_ok_find {r r' : Reg} (hi : r.inv) {m : MId} (hm : m < r.size) {n : Name} {p : PId}
+    (h : r.addParam m n p = .ok r') : kvFind (r'.get m).paramKv n = some p := by
+  rcases addParam_cases r m n p with ⟨hf, h'⟩ | ⟨_, _, h'⟩ | ⟨_, hn, hp, h'⟩ <;> rw [h'] at h <;> cases h
+  · exact hf
+  · rw [get_put_self hm]
+    have hk : kvFind (r.get m).paramKv n = none :=
+      kvFind_eq_none_iff.2 (fun hc => hn (((hi.wf m).names_iff n).2 (Or.inl hc)))
+    simp [kvEmplace_of_none hk, kvFind_append, hk]
+
+theorem addSub_ok_find {r r' : Reg} (hi : r.inv) {m : MId} (hm : m < r.size) {n : Name} {c : MId}
+    (h : r.addSub m n c = .ok r') : kvFind (r'.get m).subKv n = some c := by
+  rcases addSub_cases r m n c with ⟨hf, h'⟩ | ⟨_, _, _, h'⟩ | ⟨_, _, h'⟩ | ⟨_, _, _, hn, _, h'⟩ <;> rw [h'] at h <;> cases h
+  · exact hf
+  · rw [get_put_self hm]
+    have hk : kvFind (r.get m).subKv n = none :=
+      kvFind_eq_none_iff.2 (fun hc => hn (((hi.wf m).names_iff n).2 (Or.inr hc)))
+    simp [kvEmplace_of_none hk, kvFind_append, hk]
+
+theorem not_reach_self {r : Reg} (hi : r.inv) (m : MId) : ¬ r.Reach m m := by
+  obtain ⟨rk, hrk⟩ := hi.acyclic
+  intro h
+  exact Nat.lt_irrefl _ (h.rank_lt hrk)
+
+end Reg
+
 end Primitiv.Registry
